@@ -35,8 +35,9 @@ type c11Result struct {
 }
 
 func c11Read(r *rt.Run, api string, data []byte, keyring *openpgp.EntityList) c11Result {
-	rd := simio.NewReader(r, api, data)
-	rd.SetSplits([]int{1, 5, 14, 15, 16, 34, 35})
+	rdSim := simio.NewReader(r, api, data)
+	rdSim.SetSplits([]int{1, 5, 14, 15, 16, 34, 35})
+	rd := typedReader(r, api, data, rdSim)
 	var res c11Result
 	res.task = r.Solo("verifier:"+api, func() {
 		switch api {
